@@ -1,4 +1,5 @@
 import BfeVerif.C07.Proofs
+import BfeVerif.Generated.C07
 /-!
   C07 — active-connection counts match in-flight requests.
   Property theorems only (helper lemmas are in `Proofs.lean`).  The model is the repaired code
@@ -126,27 +127,51 @@ def cfg1 : Cfg := ⟨2, 0, 0, 0, 0, 0, [⟨"a", 1, false, [⟨true, 1⟩, ⟨tru
 def cfgLC : Cfg := { cfg1 with mode := 1 }
 
 /-- the former witness: a Finish verdict on the first attempt; the counter stays 0 (was -1) -/
-example : let g := runSched realPolicy cfg1 [⟨true, true, [⟨.finish, .ok 200⟩]⟩] (G.init cfg1 1) [.inv 0, .fin 0] []
+example : let g := runSched realPolicy cfg1 [⟨true, true, [⟨.finish, .ok 200⟩], [], none⟩] (G.init cfg1 1) [.inv 0, .fin 0] []
     g.conn 0 = 0 ∧ g.conn 1 = 0 := by decide
 
 /-- connect error on a0, retry goes to a1, Finish verdict there: both counters are 0 afterwards -/
-example : let g := runSched realPolicy cfg1 [⟨true, true, [⟨.goon, .connect⟩, ⟨.finish, .ok 200⟩]⟩] (G.init cfg1 1) [.inv 0] []
+example : let g := runSched realPolicy cfg1 [⟨true, true, [⟨.goon, .connect⟩, ⟨.finish, .ok 200⟩], [], none⟩] (G.init cfg1 1) [.inv 0] []
     g.conn 0 = 0 ∧ g.conn 1 = 0 ∧ (g.rqs.map (·.tb)) = [none] := by decide
 
 /-- two requests in flight on different backends -/
-example : let g := runSched realPolicy cfg1 [⟨true, true, []⟩, ⟨false, false, [⟨.goon, .write⟩]⟩] (G.init cfg1 2) [.inv 0, .inv 1] []
+example : let g := runSched realPolicy cfg1 [⟨true, true, [], [], none⟩, ⟨false, false, [⟨.goon, .write⟩], [], none⟩] (G.init cfg1 2) [.inv 0, .inv 1] []
     g.conn 0 = 1 ∧ g.conn 1 = 1 := by decide
 
 /-- least-connection: with request 0 holding a0, requests 1 and 2 are both sent to ... a1 then a tie again;
     after request 1 finished the next one goes to a1 again (the counters feed the choice) -/
-example : let g := runSched realPolicy cfgLC [⟨true, true, []⟩, ⟨true, true, []⟩, ⟨true, true, []⟩] (G.init cfgLC 3) [.inv 0, .inv 1, .fin 1, .inv 2] []
+example : let g := runSched realPolicy cfgLC [⟨true, true, [], [], none⟩, ⟨true, true, [], [], none⟩, ⟨true, true, [], [], none⟩] (G.init cfgLC 3) [.inv 0, .inv 1, .fin 1, .inv 2] []
     g.conn 0 = 1 ∧ g.conn 1 = 1 ∧ (g.rqs.map (·.tb)) = [some 0, none, some 1] := by decide
 
 /-- the callback replaces the backend chosen by Balance (a0) by a1: the request is counted on a1, the
     one it is sent to, and released from a1 by FinishReq -/
-example : let g := runSched realPolicy cfg1 [⟨true, true, [⟨.replace 1, .ok 200⟩]⟩] (G.init cfg1 1) [.inv 0] []
+example : let g := runSched realPolicy cfg1 [⟨true, true, [⟨.replace 1, .ok 200⟩], [], none⟩] (G.init cfg1 1) [.inv 0] []
     g.conn 0 = 0 ∧ g.conn 1 = 1 := by decide
-example : let g := runSched realPolicy cfg1 [⟨true, true, [⟨.replace 1, .ok 200⟩]⟩] (G.init cfg1 1) [.inv 0, .fin 0] []
+example : let g := runSched realPolicy cfg1 [⟨true, true, [⟨.replace 1, .ok 200⟩], [], none⟩] (G.init cfg1 1) [.inv 0, .fin 0] []
     g.conn 0 = 0 ∧ g.conn 1 = 0 := by decide
+
+/-- **C07 (tie to the source, regenerated facts)**: in package bfe_server the connection counters and
+    `request.Trans.Backend` are touched only where the model does it - clusterInvoke (decrement + clear of the
+    previous backend, SetRequestTransport, clear on a forward Finish verdict, increment) and FinishReq (decrement) -
+    so the callback points consulted in ServeHTTP (HandleBeforeLocation, HandleFoundProduct, HandleAfterLocation,
+    HandleReadResponse) cannot change a counter whatever they answer; and FinishReq's decrement is a `defer`
+    registered before the HandleRequestFinish callback block, so it runs for every verdict (also the early
+    return on Finish) and when a filter panics - which is how `step (.fin k)` models it. -/
+theorem C07_sites_as_modelled :
+    BfeVerif.Generated.C07.connSites =
+      [("FinishReq", "dec"), ("clusterInvoke", "clear"), ("clusterInvoke", "clear"), ("clusterInvoke", "dec"),
+       ("clusterInvoke", "inc"), ("clusterInvoke", "set")] ∧
+    BfeVerif.Generated.C07.finishReqDecDeferredFirst = true := by
+  decide
+
+/-- HandleRequestFinish filters: whatever they answer - Finish (FinishReq returns early), another verdict, a
+    panic - the request's backend is released (the decrement is deferred); a request that a
+    HandleBeforeLocation filter ended never took a backend and releases nothing -/
+example : let g := runSched realPolicy cfg1 [⟨true, true, [], [.goon, .finish], none⟩, ⟨true, true, [], [.panic], none⟩,
+      ⟨true, true, [], [.other], none⟩] (G.init cfg1 3) [.inv 0, .inv 1, .inv 2, .fin 0, .fin 1, .fin 2] []
+    g.conn 0 = 0 ∧ g.conn 1 = 0 := by decide
+example : let g := runSched realPolicy cfg1 [⟨true, true, [], [.finish], some 1⟩] (G.init cfg1 1) [.inv 0, .fin 0] []
+    g.conn 0 = 0 ∧ g.conn 1 = 0 := by decide
+example : finChain [.goon, .finish, .panic] finFilters 0 = (1, 2, false) := by decide
 
 end BfeVerif.C07
